@@ -13,7 +13,8 @@ import json,sys
 try: a=json.load(open(sys.argv[1]))
 except Exception as e: a={"note":"agent meta unreadable: %s"%e}
 m=json.loads(sys.argv[3])
-out={"property":sys.argv[4],"breaks":a.get("summary"),"needs_to_manifest":a.get("needs_to_manifest"),"files_changed":a.get("files_changed"),
+import re
+out={"property":re.match(r"C\d+",sys.argv[4]).group(0),"breaks":a.get("summary"),"needs_to_manifest":a.get("needs_to_manifest"),"files_changed":a.get("files_changed"),
      "agent_report":{k:a.get(k) for k in ("test_suite_before","test_suite_after","demo_without_change","demo_with_change")},
      "confirmed_by_me":m}
 json.dump(out,open(sys.argv[2],"w"),indent=1)
